@@ -130,8 +130,11 @@ func (c *BlockCache) Add(block *types.Block) {
 				c.cache[i].Blocks[block.Hash()] = block
 				break
 			} else if c.cache[i].Height > height { // not exist
-				tmp := append(c.cache[:i+1], bsh)
-				c.cache = append(tmp, c.cache[i+1:]...)
+				// insert before the first higher slot, into a fresh slice (no aliasing of c.cache's backing array)
+				tmp := make([]*blocksSameHeight, 0, len(c.cache)+1)
+				tmp = append(tmp, c.cache[:i]...)
+				tmp = append(tmp, bsh)
+				c.cache = append(tmp, c.cache[i:]...)
 				break
 			}
 		}
